@@ -130,3 +130,44 @@ func VerifC18HashRoute() {
 	verifAssert(inRange, "held-ring-names-only-held-destinations")
 	verifCover("end")
 }
+
+// VerifC18RouteUpdateAtomic: one modRoute / Update carrying several options is one change. (a) If any option is
+// refused (an invalid regex, an unknown option), the update returns an error and the route's filter is what it was
+// -- whichever order the options are visited in. (b) While an accepted two-option update runs, a concurrent
+// dispatcher's Match sees the old filter or the new one, never a mixture: the name "b" is accepted by neither
+// (old: prefix "a"; new: prefix "b" and sub "y") but would be by the half-applied filter (prefix "b", old sub).
+// The interleaving is a decision variable (bounded preemption at lock / atomic operations).
+func VerifC18RouteUpdateAtomic() {
+	m0, _ := matcher.New("a", "", "", "", "", "")
+	all, _ := matcher.New("", "", "", "", "", "")
+	r := verifAllMatch(m0, []*dest.Destination{verifSinkDest(all, "127.0.0.1:2003")})
+	if verifBool("rejected-update") {
+		opts := map[string]string{}
+		bad := [][2]string{{"regex", "("}, {"nosuchoption", "x"}}[verifChoice("bad-option", 2)]
+		if verifBool("bad-option-first") {
+			opts[bad[0]] = bad[1]
+			opts["prefix"] = "b"
+		} else {
+			opts["prefix"] = "b"
+			opts[bad[0]] = bad[1]
+		}
+		err := r.Update(opts)
+		verifAssert(err != nil, "update-with-a-bad-option-rejected")
+		cur := r.config.Load().(Config).Matcher()
+		verifAssert(cur.Prefix == "a" && cur.Sub == "" && cur.Regex == "", "rejected-update-leaves-the-filter-unchanged")
+		verifAssert(r.Match([]byte("a1")) && !r.Match([]byte("b1")), "rejected-update-leaves-the-filter-unchanged")
+		verifCover("end")
+		return
+	}
+	res := make(chan bool, 1)
+	verifPreemptions(verifParamInt("preemptions", 2))
+	go func() { res <- r.Match([]byte("b")) }()
+	err := r.Update(map[string]string{"prefix": "b", "sub": "y"})
+	got := <-res
+	verifPreemptions(0)
+	verifAssert(err == nil, "update-ok")
+	verifAssert(!got, "concurrent-match-sees-old-or-new-filter-never-a-mixture")
+	cur := r.config.Load().(Config).Matcher()
+	verifAssert(cur.Prefix == "b" && cur.Sub == "y", "update-applied-completely")
+	verifCover("end")
+}
